@@ -181,8 +181,14 @@ class Check:
     def prove(self, module: str, extra_modules: list[str] = ()) -> bool:
         """lake build of the property module; axiom audit of each of its theorems; forbidden-token grep
         over every non-generated Lean source the module depends on.  Records obligations/discharged."""
-        thms = self.theorems_of(module)
-        self.proof_status.update({"module": module, "obligations": len(thms), "discharged": 0,
+        # a property's theorems may be spread over part files Simaple/Props/Cxx_<part>.lean
+        base = LEAN / (module.replace(".", "/") + ".lean")
+        parts = [module + "_" + f.stem.split("_", 1)[1] for f in sorted(base.parent.glob(base.stem + "_*.lean"))]
+        extra_modules = list(extra_modules) + parts
+        thms = []
+        for m in [module, *parts]:
+            thms.extend(self.theorems_of(m))
+        self.proof_status.update({"module": module, "part_modules": parts, "obligations": len(thms), "discharged": 0,
                                   "theorems": thms})
         ok, log = self.lake_build([module, *extra_modules])
         if not ok:
@@ -209,7 +215,7 @@ class Check:
         # axioms
         audit = LEAN / "Simaple" / "Audit" / (module.split(".")[-1] + ".lean")
         audit.parent.mkdir(exist_ok=True)
-        audit.write_text(f"import {module}\n" + "".join(f"#print axioms {t}\n" for t in thms))
+        audit.write_text("".join(f"import {m}\n" for m in [module, *parts]) + "".join(f"#print axioms {t}\n" for t in thms))
         lock = self._lock()
         try:
             p = subprocess.run(["lake", "env", "lean", str(audit.relative_to(LEAN))], cwd=LEAN,
